@@ -29,9 +29,10 @@ RULE = ('cases = (view name, code tree, input form); code trees: every instructi
         '(>=31); distinct by (name, code, form)')
 BOUND = {
     'quick': 'code trees: core alphabet (5 leaves, 5+1 wrappers) size<=4, wide alphabet (10 leaves, 13+4 wrappers) size<=3; '
-             'all names x 5 codes; 6 names x all core trees size<=2; text form for wide trees size<=2',
-    'thorough': 'code trees: core alphabet size<=5, wide alphabet size<=4; names <=3 over 12 chars and the rest x 8 codes; '
-                '6 names x all core trees size<=3; text form for wide trees size<=2',
+             'Lambda_rec alphabet size<=3; all names x 5 codes; 6 names x all core trees size<=2; text form for wide trees size<=2',
+    'thorough': 'code trees: core alphabet size<=5, wide alphabet size<=3, middle alphabet (6 leaves, 7+1 wrappers incl. nested '
+                'pushed lambdas) size<=4; names <=3 over 12 chars and the rest x 8 codes; 6 names x all core trees size<=3; '
+                'text form for wide trees size<=2',
 }
 ASSUMPTIONS = [
     '"letters, digits" in the statement are the ASCII ones (Tezos: a-z A-Z 0-9 _ . % @); non-ASCII letters are forbidden',
@@ -114,6 +115,8 @@ ALPHABETS = {
              ('DIP', 'ITER', 'LAMBDA', 'LAMBDA_REC', 'PUSH', 'LOOP', 'MAP', 'LOOP_LEFT', 'DIPN', 'PUSH_LIST', 'PUSH_PAIR',
               'PUSH_SOME', 'PUSH_MAP'),
              ('IF', 'IF_NONE', 'IF_LEFT', 'IF_CONS')),
+    'mid': (('DROP', 'SELF', 'TT', 'CC', 'SELF_ADDRESS', 'CC_SELF'),
+            ('DIP', 'LAMBDA', 'LAMBDA_REC', 'PUSH', 'PUSH_LIST', 'PUSH_PAIR', 'PUSH_MAP'), ('IF_NONE',)),
     'rec': (('DROP', 'TT', 'SELF'), ('DIP', 'LAMBDA', 'PUSH_REC'), ()),
 }
 
@@ -400,7 +403,7 @@ def text_safe(name):
 def shards(tier, seed):
     t = tier == 'thorough'
     out = []
-    plan = [('core', 5 if t else 4), ('wide', 4 if t else 3), ('rec', 3)]
+    plan = [('core', 5 if t else 4), ('wide', 3), ('rec', 3)] + ([('mid', 4)] if t else [])
     for alpha, nmax in plan:
         leaves, unary, binary = ALPHABETS[alpha]
         out.append(('trees', alpha, 0, None, 0))
